@@ -92,6 +92,41 @@ def check(rep, tier, seed, replay):
                     "notCanon": "the application drove a block to zero"}.get(k, "validator could not read the reported tapes")
             rep.violation("oracle", {"case": line, "application": a, "validator": o, "what": what},
                           found_input=(k != "BAD-TAPE"))
+    # applications the step-by-step validator cannot reach within its budget: validate the RULE
+    # symbolically (Sym.validateApp, theorem validate_app_sound: any number of times)
+    ob_all = [(l, m) for l, m in zip(v_lines, v_meta) if res_u[seen[l]] == "overBudget"]
+    sym_lines = {}
+    for l, (line, a) in ob_all:
+        f = a.split(";")
+        head, prog = l.split(" | ", 1)
+        _, q, _, b, af = head.split(" ")
+        sym_lines[l] = f"validateapp {q} 5000 {f[4]} {b} {af} | {prog}"
+    su = sorted(set(sym_lines.values()))
+    so = dict(zip(su, core.run_driver(su)))
+    sym_ok = 0
+    for l, (line, a) in ob_all:
+        o = so[sym_lines[l]]
+        if o.startswith("ok"):
+            if parse_kv(o).get("canon") == "true":
+                sym_ok += 1
+                distinct.add(l)
+                res_u[seen[l]] = "symok"
+    over -= sym_ok
+    rep.cov["applications_validated_symbolically"] = sym_ok
+    # an application the budget cannot reach: is the machine back at the start configuration first?
+    # (then, by determinism, the reported tape is never reached: a definite failing input)
+    ob = [(l, m) for l, m in zip(v_lines, v_meta) if res_u[seen[l]] == "overBudget"]
+    ob_u = sorted({l for l, _ in ob})[:3000]
+    cyc = dict(zip(ob_u, core.run_driver([l.replace("checkapp ", "appcycle ", 1).replace(f" {budget} ", " 20000 ", 1) for l in ob_u])))
+    cyc_found = 0
+    for l, (line, a) in ob:
+        o = cyc.get(l, "open")
+        if o.startswith("cycle"):
+            cyc_found += 1
+            rep.violation("oracle", {"case": line, "application": a, "validator": o,
+                                     "what": "the real machine returns to the configuration before the application without ever "
+                                             "passing through the tape after it: the reported application is unreachable"})
+    rep.cov["applications_beyond_budget_shown_unreachable"] = cyc_found
     for m in mism[:100]:
         rep.violation("correspondence", m, found_input=False)
     rep.add_counts(len(lines) + len(v_lines), len(distinct))
@@ -100,6 +135,7 @@ def check(rep, tier, seed, replay):
     rep.cov["applications_reported"] = len(v_lines)
     rep.cov["applications_validated_ok"] = ok
     rep.cov["applications_beyond_budget"] = over
+    rep.cov["applications_beyond_both_validators"] = over
     rep.cov["validator_outcomes"] = outcome
     rep.cov["times_distribution"] = times_hist
     rep.cov["outcome_kinds"] = kinds
